@@ -297,6 +297,8 @@ def srint(x):
     """numpy's rint/round: round half to even."""
     if not isinstance(x, SReal):
         return int(round(to_fraction(x)))
+    if _int_valued(x.t):
+        return x
     fl = z3.ToInt(x.t)
     frac = x.t - z3.ToReal(fl)
     half = zconst(Fraction(1, 2))
@@ -462,6 +464,7 @@ class Engine(object):
         self.solver_time = 0.0
         self.fork_timeout_ms = 2000
         self.use_abstraction = True
+        self.atom_values = {}
         self._abs_cache = {}
         self.int_cap = 12
         self.max_decisions = 400
@@ -644,6 +647,9 @@ class Engine(object):
         v = zval(t)
         if v is not None:
             return int(v)
+        v = self._value_under_path(t)
+        if v is not None and v.denominator == 1:
+            return int(v)
         # int() truncates towards zero
         ti = z3.ToInt(t)
         tr = z3.If(t >= 0, ti, -z3.ToInt(-t))
@@ -654,6 +660,7 @@ class Engine(object):
             if not (isinstance(out, tuple) and out[0] == 'int'):
                 raise EngineGap('non-deterministic re-execution (expected int decision)')
             self._take(tr == out[1], 'int', out)
+            self._learn_atom_value(t, out[1])
             return out[1]
         from .util import forked, TIMEOUT
         s = self.solver()
@@ -684,7 +691,49 @@ class Engine(object):
         for v in vals[1:]:
             self.pending.append(list(self.decisions) + [('int', v)])
         self._take(tr == vals[0], 'int', ('int', vals[0]))
+        self._learn_atom_value(t, vals[0])
         return vals[0]
+
+    def _learn_atom_value(self, t, v):
+        """t == v was just fixed on this path and t is integer valued: if t is
+        c*atom + k for a single atom, remember the atom's value (saves the
+        solver calls for every later coordinate that differs by a constant)."""
+        from . import poly
+        try:
+            n, d = poly.ratfun(t)
+        except Exception:
+            return
+        if d != poly.ONE or not _int_valued(t):
+            return
+        atoms = poly.atoms_of(n)
+        if len(atoms) != 1:
+            return
+        a = next(iter(atoms))
+        c = n.get(((a, 1),))
+        k = n.get((), Fraction(0))
+        if c is None or len(n) > 2 or (len(n) == 2 and () not in n):
+            return
+        self.atom_values[a] = (Fraction(v) - k) / c
+
+    def _value_under_path(self, t):
+        from . import poly
+        if not self.atom_values:
+            return None
+        try:
+            n, d = poly.ratfun(t)
+        except Exception:
+            return None
+        if d != poly.ONE:
+            return None
+        tot = Fraction(0)
+        for m, c in n.items():
+            val = c
+            for a, e in m:
+                if a not in self.atom_values:
+                    return None
+                val = val * self.atom_values[a] ** e
+            tot += val
+        return tot
 
     # .............................................. uninterpreted functions
     def func(self, name, arity, boolean=False):
@@ -910,6 +959,25 @@ def _atoms(t):
     if len(_ATOM_CACHE) > 20000:
         _ATOM_CACHE.clear()
     return out
+
+
+def _int_valued(t):
+    """syntactically integer valued: to_real(to_int(.)), integer numerals,
+    If / + / - / * of such."""
+    if z3.is_int_value(t):
+        return True
+    if z3.is_rational_value(t):
+        return t.denominator_as_long() == 1
+    if not z3.is_app(t):
+        return False
+    k = t.decl().kind()
+    if k == z3.Z3_OP_TO_REAL:
+        return True if t.arg(0).sort().kind() == z3.Z3_INT_SORT else False
+    if k in (z3.Z3_OP_ADD, z3.Z3_OP_SUB, z3.Z3_OP_MUL, z3.Z3_OP_UMINUS):
+        return all(_int_valued(c) for c in t.children())
+    if k == z3.Z3_OP_ITE:
+        return _int_valued(t.arg(1)) and _int_valued(t.arg(2))
+    return False
 
 
 def _concrete_cmp(b):
